@@ -476,6 +476,14 @@ class ConstCacheVariant(Variant):
             # a float: never an acceptable argument, whether or not it equals a cached integer
             self.v = FloatVal(sym=z3.Const("float_value", z3.RealSort()))
             return fn, [self.v], {}
+        if self.ctor == "Real":
+            # a cache entry for an integer-valued key; the argument is a Python bool (True == 1, False == 0 as dictionary keys):
+            # never an acceptable argument, whether or not a constant of that value was made before
+            self.k0 = z3.Const("cached_value", I)
+            self.n0 = W.new_node(ex, S.REAL_CONSTANT, [], [z3.ToReal(self.k0)], check=False)
+            mgr.fields["real_constants"] = DictVal([[self.k0, self.n0]])
+            self.v = (self.argkind == "bool-true")
+            return fn, [self.v], {}
         if self.ctor == "String":
             self.k0 = z3.Const("cached_value", Str)
             self.n0 = W.new_node(ex, S.STR_CONSTANT, [], [self.k0], check=False)
@@ -487,7 +495,7 @@ class ConstCacheVariant(Variant):
     def check(self, ex, outcome):
         kind, r = outcome
         W = self.world
-        if self.argkind == "float":
+        if self.argkind == "float" or self.argkind.startswith("bool"):
             return [("wrong-kind-rejected-whatever-the-cache-holds", z3.BoolVal(kind == "raise"))]
         if kind == "raise" or not is_node(r):
             return [("no-exception", z3.BoolVal(False))]
@@ -525,7 +533,8 @@ def variants(world, tier="quick", only=None):
             if meth == "_create_symbol" and st > 0:
                 continue
             out.append(SymbolTableVariant(world, meth, st))
-    out += [ConstCacheVariant(world, "Int", "int"), ConstCacheVariant(world, "Int", "float"), ConstCacheVariant(world, "String", "str")]
+    out += [ConstCacheVariant(world, "Int", "int"), ConstCacheVariant(world, "Int", "float"), ConstCacheVariant(world, "String", "str"),
+            ConstCacheVariant(world, "Real", "bool-true"), ConstCacheVariant(world, "Real", "bool-false")]
     if only:
         out = [v for v in out if any(o in v.name for o in only)]
     return out
@@ -594,3 +603,139 @@ def variants(world, tier="quick", only=None):
     if only:
         extra = [v for v in extra if any(o in v.name for o in only)]
     return out + extra
+
+
+# ---------------------------------------------------------------------------
+# cross-environment copies: the symbol case of FormulaContextualizer
+# ---------------------------------------------------------------------------
+class CopySymbolVariant(Variant):
+    """FormulaContextualizer.walk_symbol(s) with a target manager whose symbol table holds 0-1 symbols (possibly one of the same
+    name): the copy is a symbol of the target with the NAME and the SORT of the source symbol (through get_or_create_symbol,
+    proved above: the stored symbol when name and sort agree, a new one when the name is free); a target symbol of that name
+    but another sort is an error, never an answer."""
+    prop_ids = ("C04",)
+    qualname = "pysmt.formula.FormulaContextualizer.walk_symbol"
+
+    def __init__(self, world, stored):
+        self.world, self.nstored = world, stored
+        self.name = "copy:walk_symbol[%d in the target]" % stored
+
+    def setup(self, ex):
+        W = self.world
+        env = core.make_env(ex, W)
+        c = RecordingCreateNode()
+        c.world = W
+        W.contracts[c.qualname] = c
+        mgr = env.fields["_formula_manager"]
+        self.mgr = mgr
+        self.src = z3.Const("source_symbol", Node)
+        W.touch(ex, self.src)
+        ex.assume(S.op(self.src) == S.SYMBOL)
+        W.learn(ex, self.src, op=S.SYMBOL, k=0)
+        from pyvc import spec
+        ex.assume(spec.valid_type(S.pl_ty(self.src)))
+        ex.assume(z3.Length(S.pl_str(self.src)) > 0)
+        self.syms = []
+        entries = []
+        for i in range(self.nstored):
+            s = z3.Const("target_symbol%d" % i, Node)
+            W.touch(ex, s)
+            ex.assume(S.op(s) == S.SYMBOL)
+            W.learn(ex, s, op=S.SYMBOL, k=0)
+            ex.assume(s != self.src)              # (another environment: no node is shared)
+            self.syms.append(s)
+            entries.append([S.pl_str(s), s])
+        mgr.fields["symbols"] = DictVal(entries)
+        self.w = Obj("pysmt.formula.FormulaContextualizer", {"env": env, "mgr": mgr, "memoization": DictVal(), "stack": [],
+                                                           "type_normalize": Builtin("type_normalize", lambda exx, a, kw: a[0])}, tag="contextualizer")
+        fi = W.repo.func(self.qualname)
+        return W.wrap_func(fi, fi.module, bound=self.w), [self.src], {"args": []}
+
+    def check(self, ex, outcome):
+        kind, r = outcome
+        clash = z3.Or([z3.And(S.pl_str(s) == S.pl_str(self.src), S.pl_ty(s) != S.pl_ty(self.src)) for s in self.syms]) if self.syms else z3.BoolVal(False)
+        if kind == "raise":
+            return [("error-only-for-a-target-symbol-of-that-name-with-another-sort", clash)]
+        if not is_node(r):
+            return [("returns-symbol", z3.BoolVal(False))]
+        W = self.world
+        W.touch(ex, r)
+        return [("copy-is-a-symbol", S.op(r) == S.SYMBOL), ("copy-has-the-name-of-the-source", S.pl_str(r) == S.pl_str(self.src)),
+                ("copy-has-the-sort-of-the-source", S.pl_ty(r) == S.pl_ty(self.src)),
+                ("clash-is-not-answered", z3.Not(clash))]
+
+
+_base_variants4c = variants
+
+
+def variants(world, tier="quick", only=None):
+    out = _base_variants4c(world, tier, None) + [CopySymbolVariant(world, 0), CopySymbolVariant(world, 1)]
+    if only:
+        out = [v for v in out if any(o in v.name for o in only)]
+    return out
+
+
+class RealCtorVariant(Variant):
+    """FormulaManager.Real(v) for v an int, a Fraction, a pair (n, d) or a float, on a cache with one arbitrary entry: THE Real
+    constant whose value is exactly the rational value of v (a float stands for the binary fraction it is - never a rounded
+    one), the same object for every spelling of that value; the cache stays a map from spellings to the constant of their value."""
+    prop_ids = ("C04", "C06", "C14")
+
+    def __init__(self, world, kind):
+        self.world, self.kind = world, kind
+        self.qualname = MGR + ".Real"
+        self.name = "const:Real[%s]" % kind
+
+    def setup(self, ex):
+        from fractions import Fraction
+        W = self.world
+        env = core.make_env(ex, W)
+        for q in ("pysmt.formula.FormulaManager.Real",):
+            W.contracts.pop(q, None)                 # the constructor itself runs from source here
+        c = RecordingCreateNode()
+        c.world = W
+        W.contracts[c.qualname] = c
+        mgr = env.fields["_formula_manager"]
+        self.mgr = mgr
+        R_ = z3.RealSort()
+        self.k0 = z3.Const("cached_key", I)
+        self.n0 = W.new_node(ex, S.REAL_CONSTANT, [], [z3.ToReal(self.k0)], check=False)
+        mgr.fields["real_constants"] = DictVal([[self.k0, self.n0]])
+        if self.kind == "int":
+            v = z3.Const("value", I)
+            self.exact = z3.ToReal(v)
+        elif self.kind == "pair":
+            n_, d_ = z3.Const("numerator", I), z3.Const("denominator", I)
+            ex.assume(d_ != 0)
+            v = (n_, d_)
+            self.exact = z3.ToReal(n_) / z3.ToReal(d_)
+        elif self.kind == "float":
+            v = FloatVal(sym=z3.Const("float_value", R_))
+            self.exact = BI.float_real(v)
+        else:
+            raise KeyError(self.kind)
+        self.v = v
+        fi = W.repo.func(self.qualname)
+        return W.wrap_func(fi, fi.module, bound=mgr), [v], {}
+
+    def check(self, ex, outcome):
+        kind, r = outcome
+        if kind == "raise" or not is_node(r):
+            return [("no-exception", z3.BoolVal(False))]
+        W = self.world
+        want = W.mk_term(S.REAL_CONSTANT, [], [self.exact])
+        goals = [("the-constant-of-exactly-that-value", r == want)]
+        for k, n in self.mgr.fields["real_constants"].items:
+            kv = BI.to_real(k) if not isinstance(k, (tuple, FloatVal)) else (BI.float_real(k) if isinstance(k, FloatVal) else z3.ToReal(k[0]) / z3.ToReal(k[1]))
+            goals.append(("cache-invariant", n == W.mk_term(S.REAL_CONSTANT, [], [kv])))
+        return goals
+
+
+_base_variants4d = variants
+
+
+def variants(world, tier="quick", only=None):
+    out = _base_variants4d(world, tier, None) + [RealCtorVariant(world, k) for k in ("int", "pair", "float")]
+    if only:
+        out = [v for v in out if any(o in v.name for o in only)]
+    return out
